@@ -114,6 +114,8 @@ func runC08(c *run.Ctx) {
 	c08Subscription(c)
 	c08BuiltInterface(c)
 	c08RegisteredResolvers(c)
+	c08GoDirectiveForms(c)
+	c08SubscriptionGrowingType(c)
 }
 
 // petsRequests: binding by the @go directive and by name only (no RegisterType) on cold roots of named Go struct types,
